@@ -165,6 +165,15 @@ def run_case(case, ctx):
         if g.size != 1:
             fail('scalar query returned %d values' % g.size, 'c14:scalar_query')
         check_values(g.reshape(1), [w], [q], ends, True, 'scalar query', 'c14:scalar_query', law)
+    # the SAME numbers asked for in other length units, one call after the other on the same object: each answer belongs to
+    # the wavelengths that were asked for, not to the previous question
+    for un_, fac in ((u.mm, 1e3), (u.nm, 1e-3), (u.micron, 1.)):
+        q2 = [q * fac for q in qs]
+        with must_succeed('get_av'):
+            g = base.get_av(np.array(qs) * un_)
+        check_values(g, of.extinction_pattern(wav, chi, q2), q2, ends, fac == 1., 'the same numbers given in %s right after another unit' % un_,
+                     'c14:answer_of_previous_query', law)
+    labels.add('same_numbers_other_unit')
     # a law object that was already queried gets a corrected wavelength grid (same length): answers follow the new grid
     if len(wav) >= 3:
         moved = [wav[0]] + [w * 1.07 if wav[0] < w * 1.07 < wav[-1] and abs(w * 1.07 - 0.55) > 1e-9 else w for w in wav[1:-1]] + [wav[-1]]
